@@ -1,35 +1,52 @@
 -------------------------------- MODULE Trace_Coins --------------------------------
-(* Trace validation for the transparent half of C01 (the wallet crates built WITH                *)
-(* `transparent-inputs`): the recorded history interleaves the shielded operations of            *)
-(* Trace_Wallet (every one of them is still validated against Wallet.tla, unchanged) with the    *)
-(* coin operations of Coins.tla:                                                                  *)
-(*   utxo     put_received_transparent_utxo(coin c = output of tx t, value v, account, height h) *)
-(*   fulltx   decrypt_and_store_transaction(tx t spending `ins`, paying the wallet `outs`,       *)
-(*            mined at h / not known to be mined, expiry e)                                      *)
-(*   txstatus set_transaction_status(tx t, Mined(h))                                             *)
-(*   coinchk  no operation: the coin projection logged after a shielded operation                *)
-(* After every event the rows of transparent_received_outputs |x| transactions |x|               *)
-(* transparent_received_output_spends and the unshielded balances get_wallet_summary reports     *)
-(* (ConfirmationsPolicy::MIN) must equal the state / the ledger Coins.tla computes.              *)
-(* Switches (IOEnv, must be set): CHECK_COINS = "1"; COIN_KNOWN_SPENDERS = "off" | "excuse" |    *)
-(* "strict" (see KnownSpendersLaw).  EXPLAIN = "1" prints the model's expectation                *)
-(* for a disagreeing projection (line "EXPLAINC") and lets the trace continue.                    *)
+(* Trace validation for transparent coins (the wallet crates built WITH `transparent-inputs`):    *)
+(* the coin half of the C01 ledger and coins as proposal inputs (C08).  The recorded history      *)
+(* interleaves the shielded operations of Trace_Wallet (every one of them is still validated      *)
+(* against Wallet.tla, unchanged) with the coin operations of Coins.tla:                          *)
+(*   utxo     put_received_transparent_utxo(coin c = output of tx t, value v, account, address,   *)
+(*            height h)                                                                            *)
+(*   fulltx   decrypt_and_store_transaction(tx t spending `ins`, paying the wallet `outs`,        *)
+(*            mined at h / not known to be mined, expiry e)                                       *)
+(*   txstatus set_transaction_status(tx t, Mined(h))                                              *)
+(*   coinchk  no operation: the coin projection logged after a shielded operation                 *)
+(*   pshield  propose_shielding(from addresses, to account, threshold, confirmations policy,      *)
+(*            selector's locked-input policy, lock request)                                       *)
+(*   ptrans   propose_transfer funded from coins only (an account, any of its addresses or a list) *)
+(*   cshield  create_proposed_transactions on a shielding proposal made earlier                   *)
+(*   clock / cunlock / cclear   lock_outputs / unlock_proposal_inputs / clear_locked_outputs on    *)
+(*            coins                                                                                *)
+(* After every event the rows of transparent_received_outputs |x| transactions |x|                *)
+(* transparent_received_output_spends, the lock columns, get_locked_outputs and the unshielded    *)
+(* balances get_wallet_summary reports (ConfirmationsPolicy::MIN) must equal the state / the      *)
+(* ledger Coins.tla computes.                                                                     *)
+(* A transaction the wallet created itself that spends coins AND creates a shielded note (a       *)
+(* shielding transaction) is one row of `transactions`: it is transaction t of Wallet.tla and     *)
+(* transaction t + SharedBase of the coin state, and the two records are kept equal (Mirror).     *)
+(* Switches (IOEnv, must be set): CHECK_COINS = "1"; COIN_KNOWN_SPENDERS = "off" | "excuse" |     *)
+(* "strict" (see KnownSpendersLaw).  EXPLAIN = "1" prints the model's expectation                 *)
+(* for a disagreeing projection (line "EXPLAINC") and lets the trace continue.                     *)
 EXTENDS Trace_Wallet
 
 CONSTANT Maturity
 
-VARIABLE coinSt      \* the coin state (a record, see Coins.tla)
+VARIABLES coinSt,     \* the coin state (a record, see Coins.tla)
+          clocks,     \* coin -> << owner, lock expiry height >>: the lock columns of transparent_received_outputs
+          caddr       \* coin -> id of the wallet address it pays (1, 2: the default address of account 1, 2; 3: a second address of account 1)
 C == INSTANCE Coins
-ctvars == << tvars, coinSt >>
+ctvars == << tvars, coinSt, clocks, caddr >>
+
+SharedBase == 100000
+ExpW(e) == IF e = 0 THEN Never ELSE e          \* expiry height: coin-state encoding (0 = never) -> Wallet.tla encoding
+ExpC(e) == IF e = Never THEN 0 ELSE e
 
 LoggedCoinRow(r) == [c |-> r.c, v |-> r.v, acct |-> r.acct, t |-> r.t, mined |-> r.mined, minobs |-> r.minobs, exp |-> r.exp,
                      sp |-> { << s[1], s[2], s[3], s[4] >> : s \in SeqToSet(r.sp) }]
 
 \* KnownMinedSpenderWins (the property, not the transcription): a coin is not counted while a transaction the wallet
 \* stored in full, and knows to be mined at or below the tip, spends it.  Spend links make this true by construction;
-\* the remaining case is a spender that was remembered before its coin arrived and was never linked.  The pinned wallet
-\* links only one of several conflicting remembered spenders: known finding C01-conflicting-spenders-one-linked,
-\* excused (and printed) only in that case and only while the check passes COIN_KNOWN_SPENDERS = "excuse".
+\* the remaining case is a spender that was remembered before its coin arrived and was never linked.  A wallet that
+\* links only one of several conflicting remembered spenders breaks it: finding C01-conflicting-spenders-one-linked
+\* (repaired in the repository), excused (and printed) only in that case and only under COIN_KNOWN_SPENDERS = "excuse".
 \* COIN_KNOWN_SPENDERS: "off" (law not evaluated) | "excuse" | "strict".
 KnownSpendersLaw ==
     (IOEnv.COIN_KNOWN_SPENDERS # "off") =>
@@ -40,69 +57,233 @@ KnownSpendersLaw ==
              /\ Cardinality(C!Cands(coinSt', k[2])) >= 2
              /\ PrintT(<< "KNOWN", "C01-conflicting-spenders-one-linked", k[2], k[1] >>)
 
-\* CoinLedgerLaw (balances) and the row-level equality, against the primed state
+\* CoinLedgerLaw (balances), the row-level equality and the lock state, against the primed state
 CoinsAgree(cp) ==
     \/ ~cp.chk
     \/ IOEnv.CHECK_COINS # "1"
     \/ /\ { LoggedCoinRow(cp.rows[i]) : i \in DOMAIN cp.rows } = { C!RowOf(coinSt', c) : c \in DOMAIN coinSt'.coins }
        /\ Len(cp.rows) = Cardinality(DOMAIN coinSt'.coins)
        /\ KnownSpendersLaw
+       /\ { << r[1], r[2], r[3] >> : r \in SeqToSet(cp.locks.rows) } = { << c, clocks'[c][1], clocks'[c][2] >> : c \in DOMAIN clocks' }
+       /\ (tip' # -1 => \A a \in 1..2 :      \* get_locked_outputs(account): the coins locked at the standard target height
+              SeqToSet(cp.locks.api[a]) = { c \in DOMAIN clocks' : clocks'[c][2] >= tip' + 1 /\ coinSt'.coins[c].acct = a })
        /\ cp.balp =>                          \* no summary, no claim (as for the shielded pools)
              \A a \in 1..2 :
-                /\ << cp.bal[a][1], cp.bal[a][2] >> \in { C!LedgerT(coinSt', a, tip' + 1), C!LedgerTGrouped(coinSt', a, tip' + 1) }
+                /\ << cp.bal[a][1], cp.bal[a][2] >> \in { C!LedgerT(coinSt', a, tip' + 1), C!LedgerTGrouped(coinSt', a, tip' + 1, clocks') }
                 /\ cp.bal[a][3] = 0 /\ cp.bal[a][4] = 0           \* nothing the driver delivers is a coinbase output
 
 CoinsOK(cp) == IF CoinsAgree(cp) THEN TRUE
                ELSE /\ IOEnv.EXPLAIN = "1"
                     /\ PrintT(<< "EXPLAINC", l, [tip |-> tip', rows |-> { C!RowOf(coinSt', c) : c \in DOMAIN coinSt'.coins }, smap |-> coinSt'.smap,
-                                                 b1 |-> << C!LedgerT(coinSt', 1, tip' + 1), C!LedgerTGrouped(coinSt', 1, tip' + 1) >>,
-                                                 b2 |-> << C!LedgerT(coinSt', 2, tip' + 1), C!LedgerTGrouped(coinSt', 2, tip' + 1) >>] >>)
+                                                 locks |-> clocks',
+                                                 b1 |-> << C!LedgerT(coinSt', 1, tip' + 1), C!LedgerTGrouped(coinSt', 1, tip' + 1, clocks') >>,
+                                                 b2 |-> << C!LedgerT(coinSt', 2, tip' + 1), C!LedgerTGrouped(coinSt', 2, tip' + 1, clocks') >>] >>)
 
 WalletSame == UNCHANGED << wvars, cvars, locks, sugg >>
 
-TCoinChk == /\ IsEvent("coinchk") /\ WalletSame /\ UNCHANGED coinSt
+\* ---- shared transactions: the record of Wallet.tla follows the coin state's (they are the same database row)
+MirrorTxs(st2) == [t \in DOMAIN txs |->
+                      IF (t + SharedBase) \in DOMAIN st2.ttx
+                      THEN [mined |-> st2.ttx[t + SharedBase].mined, minobs |-> st2.ttx[t + SharedBase].minobs,
+                            exp |-> ExpW(st2.ttx[t + SharedBase].expiry)]
+                      ELSE txs[t]]
+\* the Wallet.tla side of a coin operation: nothing but the records of shared transactions
+WalletMirrors == /\ txs' = MirrorTxs(coinSt')
+                 /\ UNCHANGED << chain, top, scanned, known, ninfo, links, tip, maxFrom, taint >>
+                 /\ UNCHANGED << cvars, locks, sugg >>
+\* ... and the coin side of a successful scan: a shared transaction found in a scanned block is mined there
+ScanMirror(from, n) ==
+    LET R == { h \in from..(from + n - 1) : h <= top }
+        hit(ct) == { e \in OnChain : e.tx.t = ct - SharedBase /\ e.h \in R }
+    IN  [coinSt EXCEPT !.ttx = [ct \in DOMAIN coinSt.ttx |->
+            IF ct >= SharedBase /\ hit(ct) # {}
+            THEN LET h == (CHOOSE e \in hit(ct) : TRUE).h IN [coinSt.ttx[ct] EXCEPT !.mined = h, !.minobs = C!MinN(@, h)]
+            ELSE coinSt.ttx[ct]]]
+SharedInSync == \A ct \in DOMAIN coinSt.ttx : ct >= SharedBase =>
+                   /\ (ct - SharedBase) \in DOMAIN txs
+                   /\ txs[ct - SharedBase] = [mined |-> coinSt.ttx[ct].mined, minobs |-> coinSt.ttx[ct].minobs, exp |-> ExpW(coinSt.ttx[ct].expiry)]
+
+Same2 == UNCHANGED << clocks, caddr >>
+
+TCoinChk == /\ IsEvent("coinchk") /\ WalletSame /\ UNCHANGED coinSt /\ Same2
             /\ CoinsOK(Rec[l].coins)
 
 \* both coin operations need a known chain tip (ChainHeightUnknown otherwise) and change nothing when refused
-TUtxo == /\ IsEvent("utxo") /\ WalletSame
+TUtxo == /\ IsEvent("utxo") /\ UNCHANGED clocks
+         /\ caddr' = C!Put(caddr, Rec[l].c, Rec[l].ad)
          /\ LET r == Rec[l]
             IN  \/ /\ r.res = "ok" /\ tip # -1
                    /\ coinSt' \in C!ReportUtxo(coinSt, tip, r.c, r.t, r.v, r.acct, r.h)
                 \/ /\ r.res = "err" /\ (tip = -1 \/ C!Remines(coinSt, r.t, r.h))
                    /\ coinSt' = coinSt
+         /\ WalletMirrors
          /\ PostOK(Rec[l].post) /\ CoinsOK(Rec[l].coins)
 
-TFullTx == /\ IsEvent("fulltx") /\ WalletSame
+TFullTx == /\ IsEvent("fulltx") /\ UNCHANGED clocks
+           /\ caddr' = [c \in DOMAIN caddr \cup { o[1] : o \in SeqToSet(Rec[l].outs) } |->
+                           IF c \in DOMAIN caddr THEN caddr[c] ELSE (CHOOSE o \in SeqToSet(Rec[l].outs) : o[1] = c)[4]]
            /\ LET r == Rec[l]
                   outs == { [c |-> o[1], v |-> o[2], acct |-> o[3]] : o \in SeqToSet(r.outs) }
               IN  \/ /\ r.res = "ok" /\ tip # -1
                      /\ coinSt' \in C!StoreFullTx(coinSt, tip, r.t, SeqToSet(r.ins), outs, r.h, r.e)
                   \/ /\ r.res = "err" /\ (tip = -1 \/ C!Remines(coinSt, r.t, r.h))
                      /\ coinSt' = coinSt
+           /\ WalletMirrors
            /\ PostOK(Rec[l].post) /\ CoinsOK(Rec[l].coins)
 
-TTxStatus == /\ IsEvent("txstatus") /\ WalletSame
+TTxStatus == /\ IsEvent("txstatus") /\ Same2
              /\ LET r == Rec[l]
                 IN  \/ /\ r.res = "ok" /\ tip # -1
                        /\ coinSt' = C!SetMined(coinSt, r.t, r.h)
                     \/ /\ r.res = "err" /\ (tip = -1 \/ C!Remines(coinSt, r.t, r.h))
                        /\ coinSt' = coinSt
+             /\ WalletMirrors
              /\ PostOK(Rec[l].post) /\ CoinsOK(Rec[l].coins)
 
-\* every operation of Trace_Wallet, with what it does to the coins: nothing - except a rewind, which un-mines
-\* every transaction above the height the wallet settled on (and a reset, which is a new wallet).
-\* (coinSt' is fixed first: with every primed variable determined TLC evaluates the projections as plain predicates.)
+\* ---------------------------------------------------------------------------------------------
+\* C08: coins as proposal inputs.  propose_shielding "shields all of the funds belonging to the provided set of
+\* addresses": the proposal's inputs are exactly the eligible coins of those addresses (the selector's cap on the number
+\* of inputs, thousands, is never reached here), each once; their value is at least the shielding threshold and equals
+\* shielded output(s) + fee; a lock request locks exactly them, all or nothing.  Refusals are relational: with funds
+\* clearly sufficient (threshold reached, and well above any fee the ZIP 317 rule can ask for) the request may not be
+\* refused for lack of funds.
+MinConf(r) == IF r.zc THEN 0 ELSE r.untrusted
+\* EXPLAIN=1 (debugging aid): the coins the specification deems eligible for the request are printed and the trace continues
+ExplainProposal(r, E) ==
+    /\ IOEnv.EXPLAIN = "1" /\ UNCHANGED clocks
+    /\ PrintT(<< "EXPLAINP", l, [eligible |-> E, sum |-> C!SumV(coinSt, E), target |-> tip + 1, minconf |-> MinConf(r), locks |-> clocks,
+                                 selected_not_eligible |-> { r.p.inputs[j][1] : j \in DOMAIN r.p.inputs } \ E,
+                                 eligible_not_selected |-> E \ { r.p.inputs[j][1] : j \in DOMAIN r.p.inputs }] >>)
+EligSet(r) == { c \in DOMAIN coinSt.coins : /\ caddr[c] \in SeqToSet(r.addrs)
+                                            /\ C!EligibleCoin(coinSt, clocks, c, tip + 1, MinConf(r), SeqToSet(r.admitted)) }
+ClearlySufficient(E, threshold) == /\ C!SumV(coinSt, E) >= threshold
+                                   /\ C!SumV(coinSt, E) >= Dust * (Cardinality(E) + 4)
+ShieldProposalOK(r) ==
+    LET p == r.p
+        target == tip + 1
+        E == EligSet(r)
+        S == { p.inputs[j][1] : j \in DOMAIN p.inputs }
+    IN  /\ p.target = target /\ tip # -1
+        /\ Cardinality(S) = Len(p.inputs)                                              \* no coin twice
+        /\ \A j \in DOMAIN p.inputs : p.inputs[j][1] \in DOMAIN coinSt.coins /\ coinSt.coins[p.inputs[j][1]].v = p.inputs[j][2]
+        /\ S = E                                                                       \* exactly the eligible coins of the addresses
+        /\ p.notes = 0 /\ p.pay = 0                                                    \* nothing else is spent, nobody else is paid
+        /\ C!SumV(coinSt, S) >= r.threshold
+        /\ C!SumV(coinSt, S) = SumSeq(p.change) + p.fee                                \* balances exactly
+        /\ IF r.lock[1] >= 0
+           THEN /\ \A c \in S : C!AcquirableC(clocks, c, r.lock[1], tip)
+                /\ clocks' = [c \in DOMAIN clocks \cup S |-> IF c \in S THEN << r.lock[1], target + r.lock[2] >> ELSE clocks[c]]
+           ELSE clocks' = clocks
+TPShield == /\ IsEvent("pshield") /\ WalletSame /\ UNCHANGED coinSt /\ UNCHANGED caddr
+            /\ \/ Rec[l].res = "ok" /\ ShieldProposalOK(Rec[l])
+               \/ /\ Rec[l].res = "inputs-locked"            \* only a selector that draws through another owner's lock can lose the race
+                  /\ Rec[l].lock[1] >= 0
+                  /\ \E c \in EligSet(Rec[l]) : ~C!AcquirableC(clocks, c, Rec[l].lock[1], tip)
+                  /\ UNCHANGED clocks
+               \/ /\ Rec[l].res \in {"insufficient", "other"}
+                  /\ ~ClearlySufficient(EligSet(Rec[l]), Rec[l].threshold)
+                  /\ UNCHANGED clocks
+               \/ Rec[l].res = "scan-required" /\ UNCHANGED clocks          \* no anchor yet: no claim
+               \/ ExplainProposal(Rec[l], EligSet(Rec[l]))
+            /\ PostOK(Rec[l].post) /\ CoinsOK(Rec[l].coins)
+
+\* propose_transfer funded from transparent coins only (SpendPolicy without shielded pools, with a TransparentSpendPolicy:
+\* any address of the account, or an explicit list of addresses): here the selector takes only as many coins as it
+\* needs, so the law is relational - every selected coin belongs to the requested ACCOUNT, pays one of the listed
+\* addresses (if a list was given) and is eligible; none twice; inputs = payment + change + fee; lock requests as above
+EligSetT(r) == { c \in DOMAIN coinSt.coins : /\ coinSt.coins[c].acct = r.acct
+                                             /\ (r.listed => caddr[c] \in SeqToSet(r.addrs))
+                                             /\ C!EligibleCoin(coinSt, clocks, c, tip + 1, MinConf(r), SeqToSet(r.admitted)) }
+TransferProposalOK(r) ==
+    LET p == r.p
+        target == tip + 1
+        S == { p.inputs[j][1] : j \in DOMAIN p.inputs }
+    IN  /\ p.target = target /\ tip # -1
+        /\ Cardinality(S) = Len(p.inputs) /\ S # {}
+        /\ \A j \in DOMAIN p.inputs : p.inputs[j][1] \in DOMAIN coinSt.coins /\ coinSt.coins[p.inputs[j][1]].v = p.inputs[j][2]
+        /\ S \subseteq EligSetT(r)
+        /\ p.notes = 0 /\ p.pay = r.amount
+        /\ C!SumV(coinSt, S) = p.pay + SumSeq(p.change) + p.fee
+        /\ IF r.lock[1] >= 0
+           THEN /\ \A c \in S : C!AcquirableC(clocks, c, r.lock[1], tip)
+                /\ clocks' = [c \in DOMAIN clocks \cup S |-> IF c \in S THEN << r.lock[1], target + r.lock[2] >> ELSE clocks[c]]
+           ELSE clocks' = clocks
+TPTrans == /\ IsEvent("ptrans") /\ WalletSame /\ UNCHANGED coinSt /\ UNCHANGED caddr
+           /\ \/ Rec[l].res = "ok" /\ TransferProposalOK(Rec[l])
+              \/ /\ Rec[l].res = "inputs-locked" /\ Rec[l].lock[1] >= 0
+                 /\ \E c \in EligSetT(Rec[l]) : ~C!AcquirableC(clocks, c, Rec[l].lock[1], tip)
+                 /\ UNCHANGED clocks
+              \/ /\ Rec[l].res \in {"insufficient", "other"}        \* may not be refused when the eligible coins clearly cover payment and any fee
+                 /\ LET E == EligSetT(Rec[l]) IN ~(C!SumV(coinSt, E) >= Rec[l].amount + Dust * (Cardinality(E) + 6))
+                 /\ UNCHANGED clocks
+              \/ Rec[l].res = "scan-required" /\ UNCHANGED clocks
+              \/ ExplainProposal(Rec[l], EligSetT(Rec[l]))
+           /\ PostOK(Rec[l].post) /\ CoinsOK(Rec[l].coins)
+
+\* create_proposed_transactions on a shielding proposal made earlier (possibly stale): the stored pending transaction
+\* spends exactly the proposal's coins - all of them coins of the account whose key signs -, pays their value minus the
+\* proposal's fee to that account's internal shielded address, expires where asked (default: target + ExpiryDelta).
+\* From then on the coins are out of the ledger (CoinLedgerLaw) and ineligible (Spendable) until it expires.
+TCShield == /\ IsEvent("cshield") /\ UNCHANGED sugg /\ UNCHANGED cvars /\ UNCHANGED locks /\ UNCHANGED caddr
+            /\ \/ /\ Rec[l].res = "ok" /\ Len(Rec[l].txs) = 1
+                  /\ LET x == Rec[l].txs[1]
+                         S == { Rec[l].inputs[i][1] : i \in DOMAIN Rec[l].inputs }
+                     IN  /\ coinSt' = C!CreateSpend(coinSt, x.t + SharedBase, S, Rec[l].target, ExpC(x.exp))
+                         \* the pinned code releases the locks on the coins the transaction spends; keeping them would do no harm
+                         /\ \E K \in { S \cap DOMAIN clocks, {} } : clocks' = [c \in DOMAIN clocks \ K |-> clocks[c]]
+                         /\ Create(x.t, Rec[l].target, x.exp, {}, x.outs,
+                                   CreateChange(x.outs) \cap { Rec[l].post.notes[i].n : i \in DOMAIN Rec[l].post.notes })
+                         /\ S \subseteq DOMAIN coinSt.coins /\ Cardinality(S) = Len(Rec[l].inputs)
+                         /\ \A i \in DOMAIN Rec[l].inputs : coinSt.coins[Rec[l].inputs[i][1]].v = Rec[l].inputs[i][2]
+                         /\ \A c \in S : coinSt.coins[c].acct = Rec[l].to
+                         /\ x.exp = (IF Rec[l].expreq = -1 THEN Rec[l].target + ExpiryDelta ELSE Rec[l].expreq)
+                         /\ C!SumV(coinSt, S) = SumSeq([i \in DOMAIN x.outs |-> x.outs[i].v]) + Rec[l].fee
+                         /\ \A i \in DOMAIN x.outs : x.outs[i].n # 0 /\ x.outs[i].acct = Rec[l].to /\ x.outs[i].int
+               \/ /\ Rec[l].res = "err" /\ UNCHANGED wvars /\ UNCHANGED coinSt /\ UNCHANGED clocks     \* refusals: no effect
+            /\ PostOK(Rec[l].post) /\ CoinsOK(Rec[l].coins)
+
+\* lock_outputs on coins: all or nothing
+TCLock == /\ IsEvent("clock") /\ WalletSame /\ UNCHANGED coinSt /\ UNCHANGED caddr
+          /\ LET S == SeqToSet(Rec[l].cs)
+             IN  \/ /\ Rec[l].res = "ok" /\ S \subseteq DOMAIN coinSt.coins /\ \A c \in S : C!AcquirableC(clocks, c, Rec[l].owner, tip)
+                    /\ clocks' = [c \in DOMAIN clocks \cup S |-> IF c \in S THEN << Rec[l].owner, Rec[l].exp >> ELSE clocks[c]]
+                 \/ /\ Rec[l].res = "lock-failure" /\ \E c \in S : c \notin DOMAIN coinSt.coins \/ ~C!AcquirableC(clocks, c, Rec[l].owner, tip)
+                    /\ UNCHANGED clocks
+          /\ PostOK(Rec[l].post) /\ CoinsOK(Rec[l].coins)
+\* unlock_proposal_inputs: only the locks the owner holds are released
+TCUnlock == /\ IsEvent("cunlock") /\ Rec[l].res = "ok" /\ WalletSame /\ UNCHANGED coinSt /\ UNCHANGED caddr
+            /\ LET gone == { c \in SeqToSet(Rec[l].cs) \cap DOMAIN clocks : clocks[c][1] = Rec[l].owner }
+               IN  clocks' = [c \in DOMAIN clocks \ gone |-> clocks[c]]
+            /\ PostOK(Rec[l].post) /\ CoinsOK(Rec[l].coins)
+\* clear_locked_outputs(account): every lock on an output of that account, notes and coins
+TCClear == /\ IsEvent("cclear") /\ Rec[l].res = "ok" /\ UNCHANGED coinSt /\ UNCHANGED caddr
+           /\ UNCHANGED wvars /\ UNCHANGED cvars /\ UNCHANGED sugg
+           /\ LET mine  == { c \in DOMAIN clocks : coinSt.coins[c].acct = Rec[l].acct }
+                  mineN == { n \in DOMAIN locks : ninfo[n].acct = Rec[l].acct }
+              IN  /\ Rec[l].count = Cardinality(mine) + Cardinality(mineN)
+                  /\ clocks' = [c \in DOMAIN clocks \ mine |-> clocks[c]]
+                  /\ locks' = [n \in DOMAIN locks \ mineN |-> locks[n]]
+           /\ PostOK(Rec[l].post) /\ CoinsOK(Rec[l].coins)
+
+\* every operation of Trace_Wallet, with what it does to the coins: nothing - except a rewind, which un-mines every
+\* transaction above the height the wallet settled on, a scan, which finds shared transactions mined, and a reset (a new
+\* wallet).  (The coin variables are fixed first: with every primed variable determined TLC evaluates the projections
+\* as plain predicates.)
 CoinTraceNext ==
-    \/ (coinSt' = C!Empty /\ TReset)
-    \/ (UNCHANGED coinSt /\ (TBlock \/ TTip \/ TScan \/ TFresh \/ TPropose \/ TLock \/ TUnlock \/ TClear \/ TSuggest \/ TSyncDone \/ TRoots))
-    \/ (/\ l <= Len(Rec) /\ Rec[l].a = "trunc"
+    \/ (coinSt' = C!Empty /\ clocks' = << >> /\ caddr' = << >> /\ TReset)
+    \/ (UNCHANGED coinSt /\ Same2 /\ (TBlock \/ TTip \/ TFresh \/ TPropose \/ TCreate \/ TLock \/ TUnlock \/ TClear \/ TSuggest \/ TSyncDone \/ TRoots))
+    \/ (/\ l <= Len(Rec) /\ Rec[l].a = "scan" /\ Same2
+        /\ coinSt' = (IF Rec[l].res = "ok" THEN ScanMirror(Rec[l].from, Rec[l].n) ELSE coinSt)
+        /\ TScan)
+    \/ (/\ l <= Len(Rec) /\ Rec[l].a = "trunc" /\ Same2
         /\ IF Rec[l].res # "ok" THEN coinSt' = coinSt
            ELSE IF ~Rec[l].cs THEN coinSt' = C!Truncate(coinSt, Rec[l].to)                 \* truncate_to_height settled on `to`
            ELSE \E eff \in 0..Rec[l].req : coinSt' = C!Truncate(coinSt, eff)               \* truncate_to_chain_state: an unlogged height
         /\ TTrunc)
     \/ TUtxo \/ TFullTx \/ TTxStatus \/ TCoinChk
+    \/ TPShield \/ TPTrans \/ TCShield \/ TCLock \/ TCUnlock \/ TCClear
 
-CoinTraceInit == TraceInit /\ coinSt = C!Empty
+CoinTraceInit == TraceInit /\ coinSt = C!Empty /\ clocks = << >> /\ caddr = << >>
 CoinTraceSpec == CoinTraceInit /\ [][CoinTraceNext]_ctvars
-CoinTypeOK == C!TypeOK(coinSt)
+CoinTypeOK == C!TypeOK(coinSt) /\ SharedInSync /\ DOMAIN clocks \subseteq DOMAIN coinSt.coins
 =====================================================================================
